@@ -25,10 +25,12 @@ CLAIMS = {
 }
 GOALS = {'quick': ['two processes invoked at one instant',
                    'structural and ordinary update in one dictionary',
-                   'process deleted in the batch in which its update is due'],
+                   'process deleted in the batch in which its update is due',
+                   'engine built from a generated store'],
          'thorough': ['two processes invoked at one instant',
                       'structural and ordinary update in one dictionary',
-                      'process deleted in the batch in which its update is due']}
+                      'process deleted in the batch in which its update is due',
+                      'engine built from a generated store']}
 STUBS = ['pure stub processes: accumulate a symbolic delta (indexed by process '
          'name and call index) into a shared z and set own_<name> := z read; '
          'user updater counting applications; recording emitter']
@@ -358,8 +360,16 @@ def run_once(ctx, cfg, order, sorder, init_keys, reverse):
             topology[n] = {'s': ('s',)}
     init = {'s': {k: 0 for k in init_keys}}
     init['s']['vec'] = [1]
-    e = Engine(processes=procs, topology=topology, initial_state=init,
-               emitter={'type': 'vsym_rec'}, display_info=False, **kwargs)
+    if CTX.get('via_store'):
+        # the engine reads everything (also the flow) back from a state tree
+        from vivarium.core.composer import Composite
+        store = Composite(dict(processes=procs, topology=topology,
+                               state=init, **kwargs)).generate_store()
+        e = Engine(store=store, emitter={'type': 'vsym_rec'},
+                   display_info=False)
+    else:
+        e = Engine(processes=procs, topology=topology, initial_state=init,
+                   emitter={'type': 'vsym_rec'}, display_info=False, **kwargs)
     CTX['engine'] = e
     e.update(CTX['T'])
     return dict(rows=[dict(r) for r in sink['rows']], inv=CTX['inv'],
@@ -380,6 +390,9 @@ def body(ctx, cfg):
     CTX['ts'] = {n: ctx.int('ts', 1, cfg['B']) for n in names}
     CTX['deltas'] = {}
     CTX['T'] = ctx.int('T', 1, cfg['T'])
+    CTX['via_store'] = bool(snames) and ctx.flag('via_store')
+    if CTX['via_store']:
+        ctx.goal('engine built from a generated store')
     keys = ['z'] + ['own_' + n for n in names]
     runs = []
     perms = list(itertools.permutations(names))
